@@ -37,7 +37,7 @@ def readable(lines):
     return out
 
 
-def run_serve_suite(R, ctx, name, nsess, what, parallel=0, stalls=(), parallel_select=0, select_sweep=(), first_select=0, extra_lines=None, **genargs):
+def run_serve_suite(R, ctx, name, nsess, what, parallel=0, stalls=(), parallel_select=0, select_sweep=(), first_select=0, halfclose=0, extra_lines=None, **genargs):
     R.rule = ("sessions: 1-4 connections (net.Pipe) against one server.Manager.Handle; each step writes a pipeline of 1-5 commands (string/key "
               "commands, SELECT with valid and invalid arguments, SUBSCRIBE, PUBLISH with binary payloads, values that are not commands, "
               "protocol damage) followed by a sentinel PING, and collects every byte the server wrote; drains collect Pub/Sub pushes; some "
@@ -64,6 +64,8 @@ def run_serve_suite(R, ctx, name, nsess, what, parallel=0, stalls=(), parallel_s
         lines += servegen.select_sweep(ndb)
     for _ in range(first_select if R.tier == "quick" else first_select * 10):
         lines += servegen.first_select_race(rng)
+    for _ in range(halfclose if R.tier == "quick" else halfclose * 10):
+        lines += servegen.halfclose_session(rng)
     obs, d, crashes, se = judge(binary, lines)
     core.negative_control(R, obs, "serve/" + name, skip=lambda l: not l.startswith("C ") or " => " not in l, group=True)
     kinds = collections.Counter(l.split()[0] for l in obs)
